@@ -95,6 +95,15 @@ def gen_history(rng, style):
                 probe()
     for _ in range(rng.randint(0, 3)):
         probe()
+    if rng.random() < 0.5:
+        # epilogue: let every writer finish, then look up EVERY index that was handed out (a completed push must be
+        # retrievable at its index for ever - e.g. not lost with a bucket that a racing writer replaced)
+        for t in list(live):
+            for _ in range(12 if style != "lying" else 70):
+                ev.append("st %d" % t)
+        ev.append("count")
+        for i in range(min(nextv[0] + 2, 70)):
+            ev.append("get %d" % i)
     if rng.random() < 0.9:
         ev.append("drop")
     return ";".join(ev), vals
